@@ -506,7 +506,12 @@ inline void run_kernel_group_base(const KernelGroup& G, bool thorough, const KFn
 // arrays, and ONE array passed for both (x == y by pointer: squares, sums of squares).  The twins carry no byte-exact expectation
 // (outputs are "written, not judged by the model"): they are judged by the differential oracles of the checks (reference against
 // accelerated variant, repeated runs, offsets, read-only operands, memory contract).
-inline void run_kernel_group(const KernelGroup& G, bool thorough, const KFn& fn) {
+inline void run_kernel_group(const KernelGroup& G, bool thorough, const KFn& fn0) {
+  const std::string gdesc = sfmt("kernel group family=%d size=%llu", (int)G.fam, (unsigned long long)G.size);
+  auto arm = [&]() { if (g_ctx()) g_ctx()->generating(gdesc); };
+  auto fn = [&](ApiCase& c, const KernelInfo& ki) { fn0(c, ki); arm(); };
+  arm();
+  struct Disarm { ~Disarm() { if (g_ctx()) g_ctx()->generating_done(); } } disarm_at_exit;
   run_kernel_group_base(G, thorough, [&](ApiCase& c, const KernelInfo& ki) {
     fn(c, ki);
     const int nb = (int)c.bufs.size();
